@@ -96,21 +96,21 @@ def gen_plan(rng, tier='quick', traces=None):
             if not worlds.integral(pts):
                 lay = rng.choice([l for l in layouts_enabled if l != 'int64'] or ['C'])
         pool.append({'kind': 'curve', 'family': fam, 'points': [[fhex(x), fhex(y)] for x, y in pts],
-                     'layout': lay, 'salt': rng.randrange(1 << 30), 'sibling': sib})
+                     'layout': lay, 'salt': rng.randrange(1 << 30), 'sibling': sib, 'readonly': rng.random() < 0.2})
     for ci in range(ncurves):
         n = len(pool[ci]['points'])
         if n >= 5 and rng.random() < 0.8:
             k = rng.randint(1, min(7, n - 2)) if rng.random() < 0.95 else 0
             vals = sorted(rng.sample(range(1, n - 1), k))
             pool.append({'kind': 'idx', 'curve': ci, 'values': vals, 'layout': rng.choice(['C', 'C', 'view', 'list', 'i32']),
-                         'salt': rng.randrange(1 << 30)})
+                         'salt': rng.randrange(1 << 30), 'readonly': rng.random() < 0.2})
         if n >= 5 and rng.random() < 0.7:
             k = rng.randint(1, min(5, n - 2))
             idx = sorted(rng.sample(range(1, n - 1), k))
             pts = [[unhex(pool[ci]['points'][i][0]) + rng.choice([0.0, 0.0, 0.5, -0.25]),
                     unhex(pool[ci]['points'][i][1])] for i in idx]
             pool.append({'kind': 'expected', 'curve': ci, 'points': [[fhex(x), fhex(y)] for x, y in pts],
-                         'layout': rng.choice(['C', 'F', 'view']), 'salt': rng.randrange(1 << 30)})
+                         'layout': rng.choice(['C', 'F', 'view']), 'salt': rng.randrange(1 << 30), 'readonly': rng.random() < 0.2})
     if rng.random() < 0.6:
         vals = rng.sample([0.5, 0.1, 0.05, 0.01, 0.001, 0.0001], rng.randint(2, 4))
         pool.append({'kind': 'tlist', 'values': [fhex(v) for v in vals], 'layout': 'list'})
@@ -170,7 +170,10 @@ def _materialise(pool, world):
         if o['kind'] in ('curve', 'expected'):
             vals = [[unhex(x), unhex(y)] for x, y in o['points']]
             lay = o['layout'] if world == 'sim' else 'C'
-            objs.append(worlds.deliver(vals, lay, o.get('salt', 0)))
+            arr = worlds.deliver(vals, lay, o.get('salt', 0))
+            if world == 'sim' and o.get('readonly'):
+                arr.flags.writeable = False       # a memory-mapped trace, a pandas copy-on-write block, a shared read-only buffer
+            objs.append(arr)
         elif o['kind'] == 'idx':
             if o['layout'] == 'list':
                 objs.append([int(v) for v in o['values']])
@@ -183,6 +186,8 @@ def _materialise(pool, world):
                 objs.append(np.array(o['values'], dtype=np.int32))
             else:
                 objs.append(np.array(o['values'], dtype=np.int64))
+            if world == 'sim' and o.get('readonly') and isinstance(objs[-1], np.ndarray):
+                objs[-1].flags.writeable = False
         elif o['kind'] == 'tlist':
             objs.append([unhex(v) for v in o['values']])
         else:
@@ -472,7 +477,13 @@ def run_sim(plan, stats):
         if not ent.get('dup') and k in results[c]:
             continue
         nv = len(mon.violations)
+        amb = _ambient()
         o = _call_step(step, objs, results[c], findings, [si, c, k], type_only)
+        amb2 = _ambient()
+        if amb2 != amb:
+            changed = sorted(kk for kk in amb if amb[kk] != amb2[kk])
+            findings.append({'oracle': 'P4', 'key': 'P4:%s:%s' % (step['fn'], ','.join(changed)), 'where': [si, c, k], 'fn': step['fn'],
+                             'detail': '%s changed process-global state: %s' % (step['fn'], ', '.join(changed))})
         e = _enc_outcome(o)
         events.append([si, c, k, bool(ent.get('dup')), sha(e)[:16]])
         bump('steps')
@@ -541,6 +552,24 @@ def _aliases(v, buf):
     """Does result v (possibly) share memory with the caller-owned array buf?  A view of the caller's own
     buffer legitimately changes when the caller refills the buffer."""
     return any(np.may_share_memory(a, buf) for a in _arrays(v))
+
+
+def _ambient():
+    """Process-global state a pure function has no business changing."""
+    import os
+    import random as _random
+    import sys as _sys
+    import warnings
+    return {
+        'np.geterr': repr(sorted(np.geterr().items())),
+        'np.printoptions': repr(sorted((k, repr(v)) for k, v in np.get_printoptions().items())),
+        'recursionlimit': _sys.getrecursionlimit(),
+        'cwd': os.getcwd(),
+        'environ': hash(tuple(sorted(os.environ.items()))),
+        'warnings.filters': len(warnings.filters),
+        'random.state': hash(_random.getstate()),
+        'np.random.state': hash(np.random.get_state()[1].tobytes()) ^ int(np.random.get_state()[2]),
+    }
 
 
 def _has_array(v, depth=0):
